@@ -125,6 +125,15 @@ Fixpoint zgcd (fuel : nat) (a b : Z) : Z :=
 
 Definition hashable_all (l : list json) : bool := forallb is_scalar l.
 
+(* _merge_enums (after the fix): members are compared as (is-boolean, value), so true <> 1 *)
+Definition is_jbool (j : json) := match j with JBool _ => true | _ => false end.
+Definition enum_eqb (a b : json) : bool := Bool.eqb (is_jbool a) (is_jbool b) && py_eqb a b.
+Fixpoint emem (a : json) (l : list json) : bool :=
+  match l with [] => false | x :: r => enum_eqb x a || emem a r end.
+Fixpoint ededup (l seen : list json) : list json :=
+  match l with [] => [] | x :: r => if emem x seen then ededup r seen else x :: ededup r (x :: seen) end.
+Definition einter (a b : list json) : list json := ededup (filter (fun x => emem x b) a) [].
+
 Definition simple_merge (key : str) (a b : json) : option (res json) :=
   let num2 (f : Z -> Z -> Z) := Some (do x <- num_of a; do y <- num_of b; Ok (JNum (f x y))) in
   if iskw key "required" then
@@ -149,7 +158,7 @@ Definition simple_merge (key : str) (a b : json) : option (res json) :=
   else if iskw key "NOT_enum" then Some (do x <- as_list a; do y <- as_list b; Ok (JArr (x ++ y)))
   else if iskw key "enum" then
     Some (do x <- as_list a; do y <- as_list b;
-          if hashable_all x && hashable_all y then Ok (JArr (pinter (pset x) y)) else PyErr ETypeError)
+          if hashable_all x && hashable_all y then Ok (JArr (einter x y)) else PyErr ETypeError)
   else None.
 
 Definition is_complex (key : str) : bool := str_eqb key (kw "prefixItems") || str_eqb key (kw "properties").
